@@ -68,26 +68,33 @@ def verify(d, n):
     return ok
 
 def run(d, n, props, tier="quick"):
+    """apply the patch to a scratch copy of /repo (never to /repo itself) and run bin/check against the copy"""
     patch = os.path.join(d, "patch%s.diff" % n)
-    rc, out = sh(["git", "-C", "/repo", "status", "--porcelain"])
-    assert out.strip() == "", "/repo is not clean: " + out
-    rc, out = sh(["git", "-C", "/repo", "apply", patch])
+    scratch = tempfile.mkdtemp(prefix="seedrun_")
+    copy = os.path.join(scratch, "repo")
+    shutil.copytree("/repo", copy, ignore=shutil.ignore_patterns(".git"))
+    rc, out = sh(["git", "apply", "--unsafe-paths", "--directory=" + copy, patch], cwd="/")
+    if rc != 0:
+        rc, out = sh(["patch", "-p1", "-i", patch], cwd=copy)
     assert rc == 0, out
     results = {}
     # evidence written while a seeded change is applied must never replace the evidence of the unchanged tree
     evbak = tempfile.mkdtemp(prefix="seedev_")
     for f in os.listdir("/verif/evidence"):
         shutil.copy2(os.path.join("/verif/evidence", f), evbak)
+    env = dict(ENV, VERIF_REPO=copy)
     try:
         for p in props:
-            rc, out = sh(["/verif/bin/check", p, tier], cwd="/verif")
+            pr = subprocess.run(["/verif/bin/check", p, tier], cwd="/verif", env=env, stdout=subprocess.PIPE, stderr=subprocess.STDOUT,
+                                text=True, errors="replace", timeout=7200)
+            rc, out = pr.returncode, pr.stdout
             last = [l for l in out.splitlines() if l.startswith(("VIOLATION", "OK ", "INFRASTRUCTURE"))]
             results[p] = (rc, last[-1] if last else out[-300:])
     finally:
-        sh(["git", "-C", "/repo", "checkout", "--", "."])
-        sh(["git", "-C", "/repo", "clean", "-fdq"])
+        shutil.rmtree(scratch, ignore_errors=True)
         # bring the regenerated Lean data and the driver back to the unchanged tree
         sh(["/verif/build/extract", "-repo", "/repo", "-out", "/verif/lean/SC/Gen"])
+        sh([sys.executable, "/verif/tools/asmfacts.py", "/repo", "/verif/lean/SC/Gen/AsmFacts.lean"])
         sh(["lake", "build", "driver"], cwd="/verif/lean")
         for f in os.listdir(evbak):
             shutil.copy2(os.path.join(evbak, f), "/verif/evidence")
